@@ -1001,6 +1001,18 @@ Qed.
 
 (* a freshly built graph: gates in dependency order, single assignment,
    inputs distinct and never written, no dead gate, standard constants *)
+(* the part of [wfg] that does not mention the constant wires: gates in
+   dependency order, single assignment, inputs distinct and never written,
+   no dead gate.  Graphs built without cc.ZeroWire()/cc.OneWire() satisfy it. *)
+Record wfg0 (G : graph) : Prop := {
+  w0_nodup_ins : NoDup (gins G);
+  w0_nodead : forall gid, In gid (gorder G) -> ndead (gn G gid) = false;
+  w0_topo : forall l1 g l2, gorder G = l1 ++ g :: l2 ->
+      (forall w, In w (inputs_of (gn G g)) ->
+                 In w (gins G) \/ exists p, In p l1 /\ nO (gn G p) = w) /\
+      ~ In (nO (gn G g)) (gins G) /\
+      (forall p, In p l1 -> nO (gn G p) <> nO (gn G g)) }.
+
 Record wfg (G : graph) : Prop := {
   wf_nodup_ins : NoDup (gins G);
   wf_nodead : forall gid, In gid (gorder G) -> ndead (gn G gid) = false;
@@ -1010,6 +1022,9 @@ Record wfg (G : graph) : Prop := {
       ~ In (nO (gn G g)) (gins G) /\
       (forall p, In p l1 -> nO (gn G p) <> nO (gn G g));
   wf_consts : std_consts G }.
+
+Lemma wfg_wfg0 G : wfg G -> wfg0 G.
+Proof. intros WF. constructor; apply WF. Qed.
 
 Lemma init_val_notin ins : forall x v0 w, ~ In w ins -> init_val ins x v0 w = v0 w.
 Proof.
@@ -1030,7 +1045,7 @@ Qed.
 
 Section Geval.
   Variable G : graph.
-  Hypothesis WF : wfg G.
+  Hypothesis WF : wfg0 G.
 
   Lemma geval_fold : forall l2 l1 v0,
     gorder G = l1 ++ l2 ->
@@ -1041,13 +1056,13 @@ Section Geval.
     induction l2 as [|g l2 IH]; intros l1 v0 Ho; simpl.
     - split; auto. intros g [].
     - assert (Hd : ndead (gn G g) = false).
-      { apply (wf_nodead _ WF). rewrite Ho. apply in_or_app. right. now left. }
+      { apply (w0_nodead _ WF). rewrite Ho. apply in_or_app. right. now left. }
       set (v1 := fupd v0 (nO (gn G g)) (node_fn (gn G g) v0)).
       assert (Hstep : geval_step G v0 g = v1) by (unfold geval_step; rewrite Hd; reflexivity).
       rewrite Hstep.
       assert (Ho' : gorder G = (l1 ++ [g]) ++ l2) by (rewrite <- app_assoc; exact Ho).
       destruct (IH (l1 ++ [g]) v1 Ho') as [IHa IHb].
-      destruct (wf_topo _ WF l1 g l2 Ho) as (Tin & Tnot & Tdist).
+      destruct (w0_topo _ WF l1 g l2 Ho) as (Tin & Tnot & Tdist).
       (* outputs of later gates differ from those of g and of earlier gates *)
       assert (Later : forall h, In h l2 ->
                 nO (gn G h) <> nO (gn G g) /\ ~ In (nO (gn G h)) (gins G) /\
@@ -1055,7 +1070,7 @@ Section Geval.
       { intros h Hh. destruct (in_split _ _ Hh) as (a & b & E).
         assert (Hs : gorder G = (l1 ++ g :: a) ++ h :: b).
         { rewrite Ho, E. rewrite <- app_assoc. reflexivity. }
-        destruct (wf_topo _ WF _ _ _ Hs) as (_ & N & D).
+        destruct (w0_topo _ WF _ _ _ Hs) as (_ & N & D).
         split; [|split; auto].
         - intros Eq. apply (D g); [apply in_or_app; right; now left|congruence].
         - intros p Hp. apply D. apply in_or_app. now left. }
@@ -1075,22 +1090,27 @@ Section Geval.
           apply (D p Hp). congruence.
   Qed.
 
-  (* forward evaluation is a satisfying valuation, sound for the constants *)
-  Theorem geval_sat x : Inv x (geval G x) G.
+  (* forward evaluation is a satisfying valuation *)
+  Theorem geval_sat0 x : sat G x (geval G x).
   Proof.
-    assert (S : sat G x (geval G x)).
-    { unfold geval.
-      destruct (geval_fold (gorder G) [] (init_val (gins G) x (fun _ => false)) eq_refl) as [Ha Hb].
-      split.
-      - intros i Hi. rewrite Ha.
-        + apply init_val_spec; auto. apply (wf_nodup_ins _ WF).
-        + intros g Hg Eq. destruct (in_split _ _ Hg) as (a & b & E).
-          destruct (wf_topo _ WF a g b E) as (_ & N & _). apply N. rewrite Eq. now apply nth_In.
-      - intros gid [Hin _]. now apply Hb. }
-    destruct (std_consts_sound G x _ (wf_consts _ WF) S) as [V C].
-    split; [|split]; auto.
+    unfold geval.
+    destruct (geval_fold (gorder G) [] (init_val (gins G) x (fun _ => false)) eq_refl) as [Ha Hb].
+    split.
+    - intros i Hi. rewrite Ha.
+      + apply init_val_spec; auto. apply (w0_nodup_ins _ WF).
+      + intros g Hg Eq. destruct (in_split _ _ Hg) as (a & b & E).
+        destruct (w0_topo _ WF a g b E) as (_ & N & _). apply N. rewrite Eq. now apply nth_In.
+    - intros gid [Hin _]. now apply Hb.
   Qed.
 End Geval.
+
+(* ... sound for the constants *)
+Theorem geval_sat G (WF : wfg G) x : Inv x (geval G x) G.
+Proof.
+  pose proof (geval_sat0 G (wfg_wfg0 G WF) x) as S.
+  destruct (std_consts_sound G x _ (wf_consts _ WF) S) as [V C].
+  split; [|split]; auto.
+Qed.
 
 (* ------------------------------------------------------------------ *)
 (* Part 4: ShortCircuitXORZero                                        *)
